@@ -318,3 +318,74 @@ func VerifOptimizeFile() {
 	w := verifSetup(vp.Bound("CALLS"))
 	verifRun(func() error { return OptimizeFile(w.inFile, w.outFile, &model.Configuration{}) })
 }
+
+// ---- merge family: several inputs, one output; MergeCreateFile / MergeCreateZipFile key their deferred
+// commit-or-cleanup on the error variable ----
+
+func verifStubMerge(destFile string, inFiles []string, w io.Writer, conf *model.Configuration, dividerPage bool) error {
+	return verifProcess(strings.NewReader(verifInputBytes), w)
+}
+
+func verifStubMergeCreateZip(rs1, rs2 io.ReadSeeker, w io.Writer, conf *model.Configuration) error {
+	return verifProcess(rs1, w)
+}
+
+// verifSetupMerge: inputs in.pdf (and in2.pdf); output new (scenario 0) or existing with mode 0640 (scenario 1).
+func verifSetupMerge(maxCalls int) *verifWorld {
+	w := &verifWorld{}
+	vw = w
+	dir, err := os.MkdirTemp("", "verifc01")
+	verifMust(err)
+	w.dir = dir
+	w.inFile = dir + "/in.pdf"
+	verifMust(os.WriteFile(w.inFile, []byte(verifInputBytes), 0o600))
+	verifMust(os.Chmod(w.inFile, 0o604))
+	verifMust(os.WriteFile(dir+"/in2.pdf", []byte(verifInputBytes), 0o600))
+	w.outFile = dir + "/out.pdf"
+	w.dest, w.outDistinct = w.outFile, true
+	if vp.Choice(2) == 1 {
+		verifMust(os.WriteFile(w.outFile, []byte(verifOldOutBytes), 0o600))
+		verifMust(os.Chmod(w.outFile, 0o640))
+		w.destExists = true
+	}
+	w.initial = verifListing(dir)
+	switch vp.Choice(4) {
+	case 1:
+		w.failAt = vp.IntRange(1, maxCalls)
+	case 2:
+		w.crashAt = vp.IntRange(1, maxCalls)
+	case 3:
+		w.outcome = vp.IntRange(1, 2)
+	}
+	return w
+}
+
+//verif:stub github.com/pdfcpu/pdfcpu/pkg/api.defaultFileOperations=verifFaultyOperations
+//verif:stub github.com/pdfcpu/pdfcpu/pkg/api.Merge=verifStubMerge
+// VerifMergeCreateFile: MergeCreateFile with new / existing output x faults, crashes, processing error, panic.
+func VerifMergeCreateFile() {
+	w := verifSetupMerge(vp.Bound("CALLS"))
+	verifRun(func() error {
+		return MergeCreateFile([]string{w.inFile, w.dir + "/in2.pdf"}, w.outFile, false, &model.Configuration{})
+	})
+}
+
+//verif:stub github.com/pdfcpu/pdfcpu/pkg/api.defaultFileOperations=verifFaultyOperations
+//verif:stub github.com/pdfcpu/pdfcpu/pkg/api.Merge=verifStubMerge
+// VerifMergeAppendFile: MergeAppendFile (existing output is also an input of the merge).
+func VerifMergeAppendFile() {
+	w := verifSetupMerge(vp.Bound("CALLS"))
+	verifRun(func() error {
+		return MergeAppendFile([]string{w.inFile}, w.outFile, false, &model.Configuration{})
+	})
+}
+
+//verif:stub github.com/pdfcpu/pdfcpu/pkg/api.defaultFileOperations=verifFaultyOperations
+//verif:stub github.com/pdfcpu/pdfcpu/pkg/api.MergeCreateZip=verifStubMergeCreateZip
+// VerifMergeCreateZipFile: MergeCreateZipFile (two inputs).
+func VerifMergeCreateZipFile() {
+	w := verifSetupMerge(vp.Bound("CALLS"))
+	verifRun(func() error {
+		return MergeCreateZipFile(w.inFile, w.dir+"/in2.pdf", w.outFile, &model.Configuration{})
+	})
+}
